@@ -30,7 +30,7 @@ REL = {
 
 def sh(cmd, cwd=None, timeout=1200, env=None):
     try:
-        p = subprocess.run(cmd, cwd=cwd, shell=True, env=env or ENV, stdout=subprocess.PIPE, stderr=subprocess.STDOUT, text=True, timeout=timeout)
+        p = subprocess.run(cmd, cwd=cwd, shell=True, env=env or ENV, stdout=subprocess.PIPE, stderr=subprocess.STDOUT, text=True, errors="replace", timeout=timeout)
         return p.returncode, p.stdout
     except subprocess.TimeoutExpired:
         return 124, "timeout"
